@@ -193,6 +193,12 @@ fn parse_set_safe_command(command: &mut std::str::SplitN<&str>) -> Result<Reques
         None => -1,
     };
 
+    // -1 means no version, anything below is reserved for internal states (-2 marks a key
+    // waiting for conflict resolution) and is never a valid client version
+    if version < -1 {
+        return Err(String::from("Invalid version!"));
+    }
+
     let value = match rest.next() {
         Some(value) => value.replace("\n", ""),
         None => return Err(String::from("set-safe must be followed by a key")),
